@@ -89,7 +89,8 @@ def run(prop, components, tier, lean_targets=(), level_text="", assumptions=(), 
                     st["broken"].append("generator of driver %s (%s) did not finish: the implementation hangs while its schedules are enumerated" % (comp.name, " ".join(ga)))
                     continue
                 if p.returncode != 0:
-                    st["broken"].append("generator of driver %s failed: %s" % (comp.name, p.stderr[-500:]))
+                    err = p.stderr if len(p.stderr) <= 1600 else p.stderr[:700] + " [...] " + p.stderr[-900:]
+                    st["broken"].append("generator of driver %s failed: %s" % (comp.name, err))
                     continue
                 m = re.search(r"DIST (.*)", p.stderr)
                 if m:
